@@ -127,6 +127,9 @@ impl Property for C05 {
             Box::new(d3.chain(d2).map(Case::Hist))
         }
     }
+    fn fuzz_plans(&self) -> Vec<(&'static str, u64)> {
+        vec![("history", 10000)]
+    }
     fn gen(&self, c: &mut Choices) -> Case {
         Case::Hist(history::gen_history(c, None))
     }
